@@ -83,7 +83,10 @@ def _run(cid, cfg_idx, seed, out, prefixes=None):
         prefix = pending.pop()
         ctx = sc.new_ctx()
         ctx.decisions = list(prefix)
-        env = SymEnv(sm, base, np_, math_, seed * 7919 + npaths + 31 * len(prefix))
+        # the sampling seed is a function of (contract, configuration, decision prefix) only, so that the numeric
+        # witnesses tried on a path do not depend on how the scheduler happened to slice the work
+        pseed = int(hashlib.sha1(repr((cid, cfg_idx, seed, list(prefix))).encode()).hexdigest()[:12], 16)
+        env = SymEnv(sm, base, np_, math_, pseed)
         ck = SymChecker(env, job)
         status = 'ok'
         try:
